@@ -63,8 +63,8 @@ CLAIMED = {
         text='Theorems: one consume() pulls at most the requested number of bytes (C17_pull_bound); building the first frame pulls exactly the bytes it carries (C17_first_frame_pulls); a generator shorter than declared at the start gives BadGeneratorError, failure, nothing sent (C17_short_at_start). Tied to /repo by generator campaigns observing the pull count after every emitted frame.',
         note='Laziness over a whole run (pulled <= carried so far + one frame) is the composition of the per-step bound, checked on runs.'),
     'C18': dict(design='4 (C18)',
-        text='Theorems for every reachable state and any traffic: with listen_mode a pass emits no frame (C18_pass_silent) and no run of micro-steps does (C18_silent). Tied to /repo by tap campaigns comparing what a listener and a normal receiver deliver from the same conversation and asserting zero transmissions.',
-        note='"Hears the same" (same payloads as a normal receiver) is a campaign oracle + model correspondence, not a theorem.'),
+        text='Theorems for every reachable state and any traffic: with listen_mode a pass emits no frame (C18_pass_silent) and no run of micro-steps does (C18_silent); hears the same: reception does not depend on listen mode or on any transmit parameter (C18_same_reception), reception is a function of the reception view, and a listener and a receiver with the same reception parameters taken through the same frames, checks, passes, recv() calls and ticks end with the same reception view - same deliveries (C18_hears_the_same, induction over the run). Tied to /repo by tap campaigns comparing what a listener and a normal receiver deliver from the same conversation and asserting zero transmissions.',
+        note='C18_hears_the_same is about lock-step schedules (both layers processed at the same instants); listeners processed at other instants are covered by the tap campaign.'),
     'C19': dict(design='4 (C19)',
         text='Theorems about the wrapper model against an independent kernel-struct specification: set_opts/set_fc_opts/set_ll_opts write exactly the documented little-endian layout with unchanged fields preserved and implied flags set (C19_set_opts, _flag_ext, _flag_txstmin, _flags_kept, _set_fc_opts, _set_ll_opts); out-of-range or wrongly typed arguments are ValueError and write nothing (C19_invalid, _invalid_arg, _fc_invalid). Tied to /repo by campaigns against a fake kernel socket recording every setsockopt byte string.',
         note='The Linux kernel is represented by Spec/Kernel.v written from the can-isotp ABI; no real CAN_ISOTP socket exists in the sandbox.'),
